@@ -710,7 +710,7 @@ func c08Scenarios(tier string) []Scenario {
 func init() {
 	register(&Property{ID: "C08", Level: "model_checking",
 		Technique: "stateless model checking of the real server under a controlled scheduler (all schedules within a preemption bound); blocking decided at quiescent states, no clocks",
-		Rule:      "every schedule with at most P preemptions per scenario: (a) every non-empty proper subset of n requests parked in the implementation, every release order, one or two connections, Maxpend 0..2 (also with the blocked request carrying tag 0xFFFF), plus implementations blocked inside FidDestroy or inside AuthRead (with more requests on the same auth fid), plus a first connection whose client stops reading - at the quiescent state reached while the subset is parked every other request must have its reply; (b) groups of 2..8 requests under one tag mixed with other tags - start/finish intervals in the implementation log disjoint and in arrival order, replies in that order; a request queued under the tag of a waiting Tflush and then blocked, next to a second Tflush; a shared tag used across a Tversion in mid-session (held request, Tversion, two more requests under the tag). distinct = distinct per-object operation orders",
+		Rule:      "every schedule with at most P preemptions per scenario: (a) every non-empty proper subset of n requests parked in the implementation, every release order, one or two connections, Maxpend 0..2 (also with the blocked request carrying tag 0xFFFF), plus implementations blocked inside FidDestroy or inside AuthRead (with more requests on the same auth fid), plus a first connection whose client stops reading - at the quiescent state reached while the subset is parked every other request must have its reply; (b) groups of 2..8 requests under one tag mixed with other tags - start/finish intervals in the implementation log disjoint and in arrival order, replies in that order; a request queued under the tag of a waiting Tflush and then blocked, next to a second Tflush; a shared tag used across a Tversion in mid-session (held request, Tversion, two more requests under the tag). distinct = distinct per-object operation orders ; shared-tag groups whose middle request the framework refuses itself (7 kinds of refusal)",
 		Assumptions: []string{"code between two synchronisation operations is atomic (race-free executions)", "transport modelled as an unbounded reliable byte queue", "'delayed' means: not answered in a state where nothing but the blocked requests could still run"},
 		Scenarios:   c08Scenarios, QuickS: 180, ThoroughS: 1500})
 }
